@@ -103,3 +103,4 @@ def run(ctx, R):
     cfrcross.rule_rv(ctx, R)
     jitcross.rule_lwexec_a64(ctx, R)
     rtpreserve.rule_rvv_geninput(ctx, R)
+    rtpreserve.rule_a64_calldest(ctx, R)
